@@ -1412,7 +1412,7 @@ def term_strings(terms):
 # Writes into storage shared with given root objects (flow-insensitive may-alias over views)
 # ----------------------------------------------------------------------------
 
-_VIEW_CALLS = {"asarray", "asanyarray", "atleast_1d", "atleast_2d", "ravel", "reshape", "squeeze", "view", "transpose", "swapaxes", "diagonal", "broadcast_to", "expand_dims"}
+_VIEW_CALLS = {"to_value", "asarray", "asanyarray", "atleast_1d", "atleast_2d", "ravel", "reshape", "squeeze", "view", "transpose", "swapaxes", "diagonal", "broadcast_to", "expand_dims"}
 _VIEW_ATTRS = {"T", "value", "real", "imag", "flat", "data", "base", "columns", "tbl"}
 _MUTATING_METHODS = {"sort", "fill", "resize", "put", "itemset", "setfield", "partition", "append", "extend", "insert", "pop", "remove", "clear", "update",
                      "setdefault", "add_column", "add_columns", "remove_column", "remove_columns", "rename_column", "replace_column", "add_row", "remove_row",
@@ -1435,6 +1435,12 @@ def storage_writes(fn, is_root):
                     for a, b in zip(t.elts, s.value.elts):
                         if isinstance(a, ast.Name):
                             binds.setdefault(a.id, []).append(b)
+                elif isinstance(t, (ast.Tuple, ast.List)):
+                    # a, b, c = f(...): each name holds a component of the result
+                    for a in t.elts:
+                        a = a.value if isinstance(a, ast.Starred) else a
+                        if isinstance(a, ast.Name):
+                            binds.setdefault(a.id, []).append(ast.Subscript(value=s.value, slice=ast.Name(id="@elem", ctx=ast.Load()), ctx=ast.Load()))
         elif isinstance(s, (ast.AnnAssign, ast.NamedExpr)) and isinstance(s.target, ast.Name) and s.value is not None:
             binds.setdefault(s.target.id, []).append(s.value)
         elif isinstance(s, ast.For) and isinstance(s.target, ast.Name):
@@ -1464,7 +1470,7 @@ def storage_writes(fn, is_root):
         if isinstance(e, ast.Starred):
             return alias(e.value, depth + 1)
         if isinstance(e, ast.Call):
-            nm = (call_name(e) or "").split(".")[-1]
+            nm = e.func.attr if isinstance(e.func, ast.Attribute) else e.func.id if isinstance(e.func, ast.Name) else ""
             if nm in _VIEW_CALLS:
                 if isinstance(e.func, ast.Attribute) and alias(e.func.value, depth + 1):
                     return True
